@@ -100,17 +100,30 @@ Definition coupled_shape (repaired : bool) : bool :=
   && list_eqb choke_eqb GenFlags.analysis_choke_calls (chokes_table repaired).
 Definition fx_coupled_now : bool := coupled_shape true.
 
-(* evaluated here (the tables are regenerated on every run), so that the extracted constant is a record of four
+(* fx_sites: the directory walk (getAllFile: folders by isIgnoreFloder, files by isIgnoreRelFile) and the per-file
+   predicate (IsIgnoreCompleteFile: isIgnoreRelFile only) end in the same function, which tries both lists; any other
+   table (in particular the one before the repair: the walk asks isIgnoreFile for files, the predicate asks
+   isIgnoreFile and isIgnoreFloder itself) counts as not repaired *)
+Definition sites_table : list (string * list string) :=
+  [("getAllFile", ["isIgnoreFloder"; "isIgnoreRelFile"]);
+   ("IsIgnoreCompleteFile", ["isIgnoreRelFile"]);
+   ("isIgnoreRelFile", ["isIgnoreFile"; "isIgnoreFloder"])]%string.
+Definition site_eqb (a b : string * list string) : bool :=
+  String.eqb (fst a) (fst b) && list_eqb String.eqb (snd a) (snd b).
+Definition fx_sites_now : bool := list_eqb site_eqb GenFlags.ignore_site_calls sites_table.
+
+(* evaluated here (the tables are regenerated on every run), so that the extracted constant is a record of five
    booleans and one list of type numbers (no Coq string reaches the extraction) *)
 Definition fixes_now : fixes :=
   Eval vm_compute in
     {| fx_regexp := fx_regexp_now; fx_gate := fx_gate_now; fx_coupled := fx_coupled_now;
        fx_dead := GenFlags.client_opens_types;      (* handleNotJSONCheckFlag writes OpenErrorTypeMap[i] = true *)
-       fx_dup := GenFlags.file_rules_merged |}.     (* ReadConfig reads IgnoreFileErrTypesMap[name] before assigning *)
+       fx_dup := GenFlags.file_rules_merged;        (* ReadConfig reads IgnoreFileErrTypesMap[name] before assigning *)
+       fx_sites := fx_sites_now |}.
 
 Lemma tie_fixes_now :
   fixes_now = {| fx_regexp := fx_regexp_now; fx_gate := fx_gate_now; fx_coupled := fx_coupled_now;
-                 fx_dead := GenFlags.client_opens_types; fx_dup := GenFlags.file_rules_merged |}.
+                 fx_dead := GenFlags.client_opens_types; fx_dup := GenFlags.file_rules_merged; fx_sites := fx_sites_now |}.
 Proof. vm_compute. reflexivity. Qed.
 
 (* the gate list of the model variant IS the list in the code (every element an error type constant) *)
